@@ -16,3 +16,18 @@ check("C11", "explore",
       "with an independent serialiser. Exhaustive within the alphabet.",
       "Trusted: mc/ecparse.py (independent parser), struct. Count limit "
       "taken as 15 user datagrams as in the code.")
+
+check("C01", "bpfvm",
+      "bounded exhaustive program x operand enumeration, independent eBPF "
+      "interpreter + kernel differential, big-integer reference",
+      "All expression trees over the stated leaf/operator/destination "
+      "alphabet (depth 1 complete; depth 2 on representative leaves; "
+      "register chains of depth 3-6 that exhaust the allocator) are compiled "
+      "by the real DSL; the assembled bytes run in an independent eBPF "
+      "interpreter on every operand vector from a boundary alphabet and the "
+      "stored value is compared with exact big-integer arithmetic under the "
+      "statement's precondition (strictest reading). Every 5th/7th program "
+      "is also run by the real kernel and must agree with the interpreter.",
+      "Trusted: mc/bpfvm.py (bound to the kernel by the differential runs), "
+      "the oracle in harness/c01_intexpr.py. Operand values come from a "
+      "boundary alphabet plus seeded values, not all 2^64.")
